@@ -204,8 +204,8 @@ LocMatch(o, st, np) == SubtypeMatch(o, st) /\ PrefixMatch(o, np)
 
 SameLocalityRel(t, src, ty, st, np, flags, res, err) ==
   LET s == O(t, src) IN
-  /\ res # 0 => err = "0"
-  /\ res = 0 => err \in {"EINVAL", "ENOENT"}
+  /\ res # 0 => err = "0"                                   \* (the recorder logs errno only next to a NULL result; its value is not documented)
+  /\ res = 0 => err \in {"0", "EINVAL", "ENOENT", "ENOSYS", "ENOMEM"}
   /\ IF flags # 0 THEN res = 0                                                        \* "flags must be 0 for now"
      ELSE IF IsNormal(s) \/ IsMem(s) THEN
        IF ty \notin (NormalTypes \cup MemTypes) THEN res = 0                          \* cannot convert to I/O or Misc
@@ -278,7 +278,32 @@ CacheTypeDepthRel(t, lv, ct, res) ==
   ELSE IF ct = -1 /\ Cardinality(m) > 1 THEN res = DEPTH_MULTIPLE
   ELSE res \in m
 
+\* hwloc_get_memory_parents_depth: the depth of the normal parents of all NUMA nodes when they agree, MULTIPLE otherwise
+MemParentsDepthRel(t, res) ==
+  LET ds == {O(t, First(SelectSeq(AncSelfSeq(t, i), LAMBDA a : IsNormal(O(t, a))))).depth : i \in {j \in Pos(t) : O(t, j).type = NUMANODE}} IN
+  res = IF Cardinality(ds) = 1 THEN CHOOSE d \in ds : TRUE ELSE DEPTH_MULTIPLE
+\* hwloc_get_type_depth_with_attr: as get_type_depth, except that a Group depth attribute selects among multiple Group levels
+TypeDepthAttrRel(t, ty, gdepth, noattr, res) ==
+  LET d == TypeDepthBF(t, ty) IN
+  IF ty = GROUP /\ d = DEPTH_MULTIPLE /\ noattr = 0
+  THEN LET m == {dd \in 0..(t.depth - 1) : t.levels[dd + 1].type = GROUP /\ \A k \in DOMAIN t.levels[dd + 1].objs : O(t, t.levels[dd + 1].objs[k]).attr.depth = gdepth} IN
+       IF m = {} THEN res = DEPTH_UNKNOWN ELSE res \in m
+  ELSE res = d
+
 ByOsRel(t, ty, os, res) == LET c == {i \in Pos(t) : O(t, i).type = ty /\ O(t, i).os = os} IN IF c = {} THEN res = 0 ELSE res \in c
+
+(* ------------------------------------------------------------------ *)
+(* I/O lookups                                                         *)
+(* ------------------------------------------------------------------ *)
+PciAt(t, dom, bus, dev, func) == {i \in Pos(t) : O(t, i).type = PCIDEV /\ LET a == O(t, i).attr.pci IN a.dom = dom /\ a.bus = bus /\ a.dev = dev /\ a.func = func}
+OneOf(c, res) == IF c = {} THEN res = 0 ELSE res \in c
+\* hwloc_get_pcidev_by_busid, hwloc_get_pcidev_by_busidstring("dddd:bb:dd.f") and ("bb:dd.f": domain 0)
+PciByBusidRel(t, dom, bus, dev, func, res, sres, short) ==
+  OneOf(PciAt(t, dom, bus, dev, func), res) /\ OneOf(PciAt(t, dom, bus, dev, func), sres) /\ OneOf(PciAt(t, 0, bus, dev, func), short)
+\* hwloc_bridge_covers_pcibus
+BridgeCoversRel(t, obj, dom, bus, res) ==
+  LET o == O(t, obj) IN
+  res = IF o.type = BRIDGE /\ o.attr.down = 1 /\ o.attr.ddom = dom /\ o.attr.sec <= bus /\ bus <= o.attr.sub THEN 1 ELSE 0
 
 (* ------------------------------------------------------------------ *)
 (* hwloc_bitmap_singlify_per_core                                      *)
@@ -314,8 +339,8 @@ DistribRel(t, roots, n, until, flags, ret, err, sets, nulls, over) ==
       out == [k \in DOMAIN sets |-> SetR(sets[k])]
       allowed == DistribAllowed(t, roots, until)
       Before(a, b) == IF flags = DISTRIB_REVERSE THEN b <= a ELSE a <= b
-  IN /\ over = 0 /\ Len(sets) = n /\ Len(nulls) = n                                 \* never more than n entries written
-     /\ IF flags \notin {0, DISTRIB_REVERSE} THEN ret = -1 /\ err = "EINVAL" /\ \A k \in DOMAIN nulls : nulls[k] = 1
+  IN /\ over = 0 /\ Len(sets) = n /\ Len(nulls) = n /\ (\A k \in DOMAIN nulls : nulls[k] \in {0, 1})   \* never more than n entries written
+     /\ IF flags \notin {0, DISTRIB_REVERSE} THEN ret = -1 /\ err \in {"0", "EINVAL"} /\ \A k \in DOMAIN nulls : nulls[k] = 1     \* "-1 on error", nothing produced
         ELSE IF n = 0 THEN ret \in {0, -1}
         ELSE /\ ret = 0 /\ err = "0"
              /\ U # {} =>
